@@ -19,8 +19,11 @@ C = {
          "TLA+ policy truth function vs. SatSet on the library's lift output (Trace_Ast)"),
  "C10": ("ast-pipeline", "model_checking", "parser-built AST = written AST, print->parse equality and print fixpoint for every enumerated miniscript in 4 contexts (descriptor/policy/key/checksum parts: not yet)", "5/C10",
          "structural AST comparison in TLA+ of parse/print round trips (Trace_Ast)"),
+ "C19": ("pairs-pipeline", "model_checking", "full ordered pair matrix of ==, cmp, hash and to_string over every well-typed miniscript up to the node bound plus near-miss families, in explicit and sugared text, 4 contexts; every cell judged against abstract AST identity; ordering checked to be a strict total order (distinct scores)", "5/C19",
+         "structural identity of abstract ASTs (TLA+ Gen_Pairs) vs. library Eq/Ord/Hash matrix (Trace_Eq)"),
 }
 ENG = {
+ "pairs-pipeline": ("bin/pipe_generic.py", "TLC Gen_Pairs -> msverif pairs -> TLC Trace_Eq"),
  "sat-pipeline": ("bin/pipe_sat.py", "TLC Gen_Sat -> msverif sat (real library + alpha) -> TLC Trace_Sat + MC_SatSet"),
  "ast-pipeline": ("bin/pipe_ast.py", "TLC Gen_Ast -> msverif ast -> TLC Trace_Ast"),
  "types-pipeline": ("bin/pipe_types.py", "TLC Gen_Types -> msverif types -> TLC Trace_Types (+ MC_Reach)"),
